@@ -174,6 +174,9 @@ def build_alphabet(m, ents, rng=None, small=False):
         add("find", X.meth(X.sid(s), "children"))
         add("find", X.meth(X.sid(s), "siblings"))
         add("find_one", X.meth(X.sid(s), "get_last", keys[-3]))
+    # material for scripted episodes (see HistoryProfile.episode)
+    G.append({"tag": "episode_material", "material": True, "finders": finders, "f": f,
+              "partial": [last, last, last, const, const, wide, dstar, star2], "plain": [star, star2, dstar, f, last, const]})
     return A, G
 
 
@@ -216,6 +219,9 @@ class HistoryProfile(StoreProfile):
             return uni[i]
         if i - len(uni) >= run.params["n_ops"]:
             return None
+        queue = run.scratch.get("queue") or []
+        if queue:
+            return queue.pop(0)
         ents = run.store.listing(m.default_config)
         if not any(m.is_leaf_type(m.natural_type(e)) for e in ents):
             return None   # (after minimisation) no file left to build the alphabet around
@@ -253,6 +259,12 @@ class HistoryProfile(StoreProfile):
             return {"op": "take", "e": rng.choice(finds)["e"], "n": rng.randint(0, 2)}
         if r < 0.20:
             return {"op": "flood", "n": rng.choice([3, 10, 70, 140]), "salt": rng.randrange(1000)}
+        if rng.random() < 0.12:
+            ep = self.episode(run, G)
+            if ep:
+                run.scratch["queue"] = ep[1:]
+                return ep[0]
+        G = [g for g in G if not g.get("material")]
         if r < 0.40 and G:
             g = rng.choice(G)
             if g.get("chain"):
@@ -265,6 +277,52 @@ class HistoryProfile(StoreProfile):
         tag = rng.choice(tags)
         a = rng.choice([x for x in A if x["tag"] == tag])
         return {"op": "call", "tag": a["tag"], "e": a["e"]}
+
+    def episode(self, run, G):
+        """Scripted mini-histories on ONE finder instance (held by the client two times out of three):
+        (a) a search abandoned early (find_one / exists / a generator advanced 0..2 times), then other searches on the
+            same instance; (b) a search abandoned early, then a new version created next to the file the searches are
+            built around, then the same search again on the same instance (the later call reflects the change)."""
+        rng, m = run.rng, run.m
+        mat = [g for g in G if g.get("material")]
+        if not mat:
+            return None
+        mat = mat[0]
+        held = [F for F in mat["finders"] if "$h" in F]
+        F = rng.choice(held) if held and rng.random() < 0.66 else rng.choice(mat["finders"])
+        s1 = rng.choice(mat["partial"])
+        how = rng.choice(["take", "find_one", "exists"])
+        if how == "take":
+            first = {"op": "take", "e": X.meth(F, "find", s1), "n": rng.choice([0, 1, 1, 2])}
+        else:
+            first = {"op": "call", "tag": "find_one" if how == "find_one" else "find", "e": X.meth(F, how, s1)}
+        steps = [first]
+        if rng.random() < 0.5:
+            for s2 in rng.sample(mat["plain"], rng.randint(1, 2)):
+                steps.append({"op": "call", "tag": "find", "e": X.meth(F, "find", s2)})
+            run.probes["episode_abandoned_then_other_searches"] += 1
+        else:
+            f = mat["f"]
+            tn = m.natural_type(f)
+            ks = m.by_name[tn].keys
+            new = None
+            if "version" in ks:
+                segs = f.split("/")
+                vals = list(self.vocab(run).values(tn, "version") or [])
+                rng.shuffle(vals)
+                for v in vals:
+                    segs[ks.index("version")] = v
+                    cand = "/".join(segs)
+                    if all(run.store.can_create(c, cand) == "ok" for c in m.configs):
+                        new = cand
+                        break
+            if not new:
+                return None
+            steps.append({"op": "mirror", "sid": new, "data": None})
+            steps.append({"op": "call", "tag": "find", "e": X.meth(F, "find", s1)})
+            steps.append({"op": "call", "tag": "find_one", "e": X.meth(F, "find_one", s1)})
+            run.probes["episode_abandoned_mutated_asked_again"] += 1
+        return steps
 
     # ------------------------------------------------------------------ execution
     def setup(self, run):
@@ -374,6 +432,7 @@ class HistoryProfile(StoreProfile):
             for c in model.configs:
                 st.create(c, s)
         A, G = build_alphabet(model, st.listing(cfg), small=True)
+        G = [g for g in G if not g.get("material")]
         base = [a for i, a in enumerate(A) if i % (3 if tier == "thorough" else 6) == 0]
         # one run per first call: [universe, (restart, a, b) for every b]
         for a in base:
